@@ -99,6 +99,9 @@ type vfpWorld struct {
 	// in the path goroutine, in the caller's order), so that the harness can act while the path
 	// loop is held in the middle of the request it is serving
 	gate atomic.Pointer[vfpGate]
+	// raceReady: the static source reports ready while the path is stopping it (armed by timer steps)
+	raceReady atomic.Bool
+	raceDone  atomic.Pointer[chan struct{}]
 }
 
 type vfpGate struct {
@@ -235,6 +238,19 @@ func (s *vfpStatic) Log(_ logger.Level, f string, _ ...any) {
 		s.w.log(vfpEvent{T: "static", V: "start"})
 	case strings.HasPrefix(f, "stopped"):
 		s.w.log(vfpEvent{T: "static", V: "stop"})
+		// Handler.Stop logs this from the path goroutine BEFORE it cancels the handler's context and waits
+		// for the handler loop. During a timer step the source reports "ready" at exactly this moment: the
+		// handler loop takes the report and tries to hand it to the path loop, which is busy stopping the
+		// source. Stop must still return (the hand-over escapes on the handler's context).
+		if s.w.raceReady.CompareAndSwap(true, false) {
+			done := make(chan struct{})
+			s.w.raceDone.Store(&done)
+			go func() {
+				s.h.SetReady(defs.PathSourceStaticSetReadyReq{Desc: vfpDesc()})
+				close(done)
+			}()
+			time.Sleep(10 * time.Millisecond)
+		}
 	}
 }
 
@@ -661,6 +677,9 @@ func (w *vfpWorld) step(in vfpIn) vfpStep {
 			before := w.odState(pa)
 			// fire only a timer that the code has armed
 			if tm.Stop() {
+				if !w.prof.OnDemandPub {
+					w.raceReady.Store(true)
+				}
 				tm.Reset(0)
 				st.Fired = true
 				deadline := time.Now().Add(10 * time.Second)
@@ -676,6 +695,14 @@ func (w *vfpWorld) step(in vfpIn) vfpStep {
 						break
 					}
 					time.Sleep(200 * time.Microsecond)
+				}
+				w.raceReady.Store(false)
+				if dp := w.raceDone.Swap(nil); dp != nil {
+					select {
+					case <-*dp:
+					case <-time.After(10 * time.Second):
+						st.Hang = true // the source's report never returned: the handler loop is stuck
+					}
 				}
 			}
 		}
